@@ -575,3 +575,240 @@ Proof.
     + unfold popped, frame0. st_simpl. rewrite Frecvd.
       repeat split; try assumption; try reflexivity.
 Qed.
+
+(** ** close_internal's marking loop *)
+(* everything but the futures' records and the event log *)
+Definition frameM (s s' : st) : Prop :=
+  cap s' = cap s /\ fx s' = fx s /\ q s' = q s /\ sc s' = sc s /\ rc s' = rc s /\ asq s' = asq s /\
+  arq s' = arq s /\ hs s' = hs s /\ next s' = next s /\ acc s' = acc s /\ recvd s' = recvd s /\
+  back s' = back s /\ dropped s' = dropped s /\ freed s' = freed s /\ tn s' = tn s /\ dk s' = dk s.
+
+Lemma frameM_refl s : frameM s s.
+Proof. unfold frameM. repeat split. Qed.
+
+Lemma frameM_trans a b c : frameM a b -> frameM b c -> frameM a c.
+Proof.
+  unfold frameM.
+  intros (A1 & A2 & A3 & A4 & A5 & A6 & A7 & A8 & A9 & A10 & A11 & A12 & A13 & A14 & A15 & A16)
+         (B1 & B2 & B3 & B4 & B5 & B6 & B7 & B8 & B9 & B10 & B11 & B12 & B13 & B14 & B15 & B16).
+  repeat split; congruence.
+Qed.
+
+(* a WAITING future is marked CLOSED (its queue entry stays) *)
+Lemma InvH_mark_closed hand f x s :
+  InvH hand s -> getF f s = Some x -> is_waiting (f_state x) = true ->
+  InvH hand (setF f (set_state WClosed x) s).
+Proof.
+  intros [HD [HW HK]] Hg Hw.
+  set (x' := set_state WClosed x). set (s' := setF f x' s).
+  assert (HWs : InvW s').
+  { destruct HW. subst s'. constructor; unfold any_live in *; st_simpl.
+    - exact w_hnd0.
+    - apply NoDup_aset. exact w_fnd0.
+    - exact w_arq_nd0.
+    - exact w_asq_nd0.
+    - intros f1 w1 Hi. destruct (w_arq_k0 f1 w1 Hi) as [y [Hy Hr]].
+      change (exists z, getF f1 (setF f x' s) = Some z /\ f_recv z = true). rewrite getF_setF.
+      destruct (N.eqb_spec f1 f) as [->|]; [|eauto].
+      exists x'. split; [reflexivity|]. subst x'. cbn. congruence.
+    - intros f1 w1 Hi. destruct (w_asq_k0 f1 w1 Hi) as [y [Hy [Hr Hrg]]].
+      change (exists z, getF f1 (setF f x' s) = Some z /\ f_recv z = false /\ f_reg z = true). rewrite getF_setF.
+      destruct (N.eqb_spec f1 f) as [->|]; [|eauto].
+      exists x'. subst x'. cbn. rewrite Hg in Hy. inversion Hy; subst. auto.
+    - intros f1 y Hy Hrg. change (getF f1 (setF f x' s) = Some y) in Hy. getF_cases Hy.
+      + apply (w_reg0 f x Hg). exact Hrg.
+      + eapply w_reg0; eauto.
+    - intros f1 y Hy Hrg Hwy. change (getF f1 (setF f x' s) = Some y) in Hy. getF_cases Hy.
+      + discriminate.
+      + exact (w_wq0 f1 y Hy Hrg Hwy).
+    - intros f1 y Hy Hl. change (getF f1 (setF f x' s) = Some y) in Hy.
+      change (exists h, getH (f_h y) s = Some h /\ h_live h = true). getF_cases Hy.
+      + apply (w_fh0 f x Hg). exact Hl.
+      + eapply w_fh0; eauto.
+    - intros Hsc f1 w1 y Hi Hy. change (getF f1 (setF f x' s) = Some y) in Hy.
+      getF_cases Hy; [reflexivity|]. eapply w_sc1; eauto.
+    - intros Hrc f1 w1 y Hi Hy. change (getF f1 (setF f x' s) = Some y) in Hy.
+      getF_cases Hy; [reflexivity|]. eapply w_rc1; eauto.
+    - intros T f1 w1 Hi. destruct (w_arq_reg0 T f1 w1 Hi) as [y [Hy Hr]].
+      change (exists z, getF f1 (setF f x' s) = Some z /\ f_reg z = true). rewrite getF_setF.
+      destruct (N.eqb_spec f1 f) as [->|]; [|eauto].
+      exists x'. subst x'. cbn. rewrite Hg in Hy. inversion Hy; subst. auto.
+    - exact w_freed0.
+    - exact w_taint0. }
+  assert (Hcnt : forall P, (cnt P (fs s') + b2n (P x) = cnt P (fs s) + b2n (P x'))%nat).
+  { intros P. subst s'. apply cnt_setF; [apply (w_fnd s HW) | exact Hg]. }
+  split; [|split; [exact HWs|]].
+  - destruct HD as [A B C]. subst s'. constructor; [exact A | exact B |].
+    intros v. specialize (C v). unfold tot in *.
+    rewrite (cells_setF_same f x x' s v (w_fnd s HW) Hg (cellp_set_state v WClosed x)). exact C.
+  - destruct HK as [K1 K2 K3]. fold (nq s) in K2, K3. fold (ncap s) in K3.
+    pose proof (Hcnt pw_r) as C1. pose proof (Hcnt pi_r) as C2.
+    pose proof (Hcnt pw_s) as C3. pose proof (Hcnt pi_s) as C4.
+    assert (E2 : pw_r x' = false) by (unfold pw_r, x'; cbn; apply andb_false_r).
+    assert (E3 : pi_r x = false) by (unfold pi_r; destruct (f_state x); try discriminate; apply andb_false_r).
+    assert (E4 : pi_r x' = false) by (unfold pi_r, x'; cbn; apply andb_false_r).
+    assert (E6 : pw_s x' = false) by (unfold pw_s, x'; cbn; apply andb_false_r).
+    assert (E7 : pi_s x = false) by (unfold pi_s; destruct (f_state x); try discriminate; apply andb_false_r).
+    assert (E8 : pi_s x' = false) by (unfold pi_s, x'; cbn; apply andb_false_r).
+    rewrite E2 in C1. rewrite E3, E4 in C2. rewrite E6 in C3. rewrite E7, E8 in C4.
+    unfold b2n in *.
+    assert (Eq : nq s' = nq s) by reflexivity. assert (Ec : ncap s' = ncap s) by reflexivity.
+    assert (Et : tn s' = tn s) by reflexivity.
+    constructor; rewrite ?Eq, ?Ec, ?Et.
+    + exact K1.
+    + intros T1 T2. specialize (K2 T1 T2). clear - K2 C1 C2. destruct (pw_r x); lia.
+    + intros T. specialize (K3 T). clear - K3 C3 C4. destruct (pw_s x); lia.
+Qed.
+
+Lemma mark_all_spec hand l : forall s,
+  InvH hand s ->
+  let s' := mark_all WClosed l s in
+  InvH hand s' /\ frameM s s'
+  /\ (forall f x', getF f s' = Some x' ->
+        exists x, getF f s = Some x /\ (is_waiting (f_state x') = true -> x' = x))
+  /\ (forall f w x', In (f, w) l -> getF f s' = Some x' -> is_waiting (f_state x') = false).
+Proof.
+  induction l as [|[f w] t IH]; intros s H; cbn [mark_all].
+  - split; [exact H|]. split; [apply frameM_refl|]. split; [eauto | intros ? ? ? []].
+  - destruct (getF f s) as [x|] eqn:Hg.
+    + destruct (is_waiting (f_state x)) eqn:Hw.
+      * set (s1 := mark_bad (negb (f_live x)) (wake w (setF f (set_state WClosed x) s))).
+        assert (H1 : InvH hand s1).
+        { subst s1. apply InvH_mark_bad, InvH_wake, InvH_mark_closed; assumption. }
+        assert (F1 : frameM s s1).
+        { subst s1. unfold mark_bad, frameM. destruct (negb (f_live x)); st_simpl; repeat split. }
+        assert (G1 : forall f1, getF f1 s1 = if N.eqb f1 f then Some (set_state WClosed x) else getF f1 s).
+        { intros f1. subst s1. unfold mark_bad. destruct (negb (f_live x)); apply getF_setF. }
+        destruct (IH s1 H1) as [A [B [C D]]]. cbv zeta in *.
+        split; [exact A|]. split; [eapply frameM_trans; eauto|]. split.
+        -- intros f1 x' Hx'. destruct (C f1 x' Hx') as [y [Hy Hyw]]. rewrite G1 in Hy.
+           destruct (N.eqb_spec f1 f) as [->|].
+           ++ inversion Hy; subst y. exists x. split; [exact Hg|]. intros Hwx. rewrite (Hyw Hwx) in Hwx. discriminate.
+           ++ eauto.
+        -- intros f1 w1 x' [E|Hi] Hx'; [|eapply D; eauto].
+           inversion E; subst f1 w1. destruct (C f x' Hx') as [y [Hy Hyw]]. rewrite G1, N.eqb_refl in Hy.
+           inversion Hy; subst y. destruct (is_waiting (f_state x')) eqn:Ew; [|reflexivity].
+           rewrite (Hyw eq_refl) in Ew. discriminate.
+      * destruct (IH s H) as [A [B [C D]]]. cbv zeta in *.
+        split; [exact A|]. split; [exact B|]. split; [exact C|].
+        intros f1 w1 x' [E|Hi] Hx'; [|eapply D; eauto].
+        inversion E; subst f1 w1. destruct (C f x' Hx') as [y [Hy Hyw]]. rewrite Hg in Hy. inversion Hy; subst y.
+        destruct (is_waiting (f_state x')) eqn:Ew; [|reflexivity]. rewrite (Hyw eq_refl) in Ew. congruence.
+    + destruct (IH s H) as [A [B [C D]]]. cbv zeta in *.
+      split; [exact A|]. split; [exact B|]. split; [exact C|].
+      intros f1 w1 x' [E|Hi] Hx'; [|eapply D; eauto].
+      inversion E; subst f1 w1. destruct (C f x' Hx') as [y [Hy Hyw]]. congruence.
+Qed.
+
+(** ** taints only weaken the conditional clauses *)
+Definition tle (a b : taints) : Prop :=
+  (t03 b = false -> t03 a = false) /\ (t03f b = false -> t03f a = false) /\
+  (t06 b = false -> t06 a = false) /\ (t07 b = false -> t07 a = false) /\
+  (t08 b = false -> t08 a = false) /\ (t12 b = false -> t12 a = false) /\
+  (t33 b = false -> t33 a = false).
+
+Lemma tle_refl a : tle a a.
+Proof. unfold tle. tauto. Qed.
+
+Lemma tle_trans a b c : tle a b -> tle b c -> tle a c.
+Proof. unfold tle. tauto. Qed.
+
+Lemma InvH_with_tn hand t' s :
+  InvH hand s -> tle (tn s) t' -> taint_ok (fx s) t' -> InvH hand (with_tn t' s).
+Proof.
+  intros [HD [HW HK]] (L1 & L2 & L3 & L4 & L5 & L6 & L7) Hok. split; [|split].
+  - destruct HD. constructor; unfold nq, ncap, tot, cells in *; st_simpl; assumption.
+  - destruct HW. constructor; unfold getF, getH, any_live in *; st_simpl; try assumption.
+    intros T. apply w_arq_reg0. auto.
+  - destruct HK as [K1 K2 K3]. constructor; unfold nq, ncap in *; st_simpl.
+    + intros T. apply K1. auto.
+    + intros T1 T2. apply K2; auto.
+    + intros T. apply K3; auto.
+Qed.
+
+Lemma InvH_taint hand (g : taints -> taints) b s :
+  InvH hand s -> tle (tn s) (g (tn s)) -> (b = true -> taint_ok (fx s) (g (tn s))) ->
+  InvH hand (taint g b s).
+Proof.
+  intros H L Hok. unfold taint. destruct b; [|exact H]. apply InvH_with_tn; auto.
+Qed.
+
+Lemma tle_set_t03 t : tle t (set_t03 t). Proof. unfold tle, set_t03; cbn; repeat split; auto; discriminate. Qed.
+Lemma tle_set_t03f t : tle t (set_t03f t). Proof. unfold tle, set_t03f; cbn; repeat split; auto; discriminate. Qed.
+Lemma tle_set_t06 t : tle t (set_t06 t). Proof. unfold tle, set_t06; cbn; repeat split; auto; discriminate. Qed.
+Lemma tle_set_t07 t : tle t (set_t07 t). Proof. unfold tle, set_t07; cbn; repeat split; auto; discriminate. Qed.
+Lemma tle_set_t08 t : tle t (set_t08 t). Proof. unfold tle, set_t08; cbn; repeat split; auto; discriminate. Qed.
+Lemma tle_set_t12 t : tle t (set_t12 t). Proof. unfold tle, set_t12; cbn; repeat split; auto; discriminate. Qed.
+Lemma tle_set_t33 t : tle t (set_t33 t). Proof. unfold tle, set_t33; cbn; repeat split; auto; discriminate. Qed.
+
+Lemma ok_set_t03 f t : taint_ok f t -> fx03 f = false -> taint_ok f (set_t03 t).
+Proof. unfold taint_ok, set_t03; cbn. intros (A&B&C&D&E&F&G) H. repeat split; auto. congruence. Qed.
+Lemma ok_set_t03f f t : taint_ok f t -> fx03f f = false -> taint_ok f (set_t03f t).
+Proof. unfold taint_ok, set_t03f; cbn. intros (A&B&C&D&E&F&G) H. repeat split; auto. congruence. Qed.
+Lemma ok_set_t06 f t : taint_ok f t -> fx06 f = false -> taint_ok f (set_t06 t).
+Proof. unfold taint_ok, set_t06; cbn. intros (A&B&C&D&E&F&G) H. repeat split; auto. congruence. Qed.
+Lemma ok_set_t07 f t : taint_ok f t -> fx07 f = false -> taint_ok f (set_t07 t).
+Proof. unfold taint_ok, set_t07; cbn. intros (A&B&C&D&E&F&G) H. repeat split; auto. congruence. Qed.
+Lemma ok_set_t08 f t : taint_ok f t -> fx08 f = false -> taint_ok f (set_t08 t).
+Proof. unfold taint_ok, set_t08; cbn. intros (A&B&C&D&E&F&G) H. repeat split; auto. congruence. Qed.
+Lemma ok_set_t12 f t : taint_ok f t -> fx12 f = false -> taint_ok f (set_t12 t).
+Proof. unfold taint_ok, set_t12; cbn. intros (A&B&C&D&E&F&G) H. repeat split; auto. congruence. Qed.
+Lemma ok_set_t33 f t : taint_ok f t -> fx33 f = false -> taint_ok f (set_t33 t).
+Proof. unfold taint_ok, set_t33; cbn. intros (A&B&C&D&E&F&G) H. repeat split; auto. congruence. Qed.
+
+(** ** changing the handle table and the two counts *)
+Lemma InvH_handles hand hs' sc' rc' fr' s :
+  InvH hand s ->
+  NoDup (akeys hs') ->
+  (forall f x, getF f s = Some x -> f_live x = true ->
+               exists h, aget (f_h x) hs' = Some h /\ h_live h = true) ->
+  (sc' = 0 -> forall f w x, In (f, w) (arq s) -> getF f s = Some x -> is_waiting (f_state x) = false) ->
+  (rc' = 0 -> forall f w x, In (f, w) (asq s) -> getF f s = Some x -> is_waiting (f_state x) = false) ->
+  fr' = negb (existsb (fun e => h_live (snd e)) hs') ->
+  (t07 (tn s) = false -> sc' = N.of_nat (cnt open_tx hs') /\ rc' = N.of_nat (cnt open_rx hs')) ->
+  InvH hand (with_freed fr' (with_hs hs' (with_sc sc' (with_rc rc' s)))).
+Proof.
+  intros [HD [HW HK]] Hnd Hfh Hsc Hrc Hfr Hcnt. split; [|split].
+  - destruct HD. constructor; unfold nq, ncap, tot, cells in *; st_simpl; assumption.
+  - destruct HW. constructor; unfold getF, getH, any_live in *; st_simpl; assumption.
+  - destruct HK as [K1 K2 K3]. constructor; unfold nq, ncap in *; st_simpl; assumption.
+Qed.
+
+Lemma not_borrowed h s :
+  borrowed h s = false -> forall f x, getF f s = Some x -> f_live x = true -> f_h x <> h.
+Proof.
+  unfold borrowed. intros Hb f x Hg Hl E.
+  assert (Hi : In (f, x) (fs s)) by (apply aget_In; exact Hg).
+  assert (existsb (fun e => f_live (snd e) && (f_h (snd e) =? h)) (fs s) = true).
+  { apply existsb_exists. exists (f, x). split; [exact Hi|]. cbn [snd]. rewrite Hl, E, N.eqb_refl. reflexivity. }
+  congruence.
+Qed.
+
+Lemma cnt_hs (P : handle -> bool) h x x' l :
+  NoDup (akeys l) -> aget h l = Some x ->
+  (cnt P (aset h x' l) + b2n (P x) = cnt P l + b2n (P x'))%nat.
+Proof. apply cnt_aset. Qed.
+
+Lemma live_exists (l : list (N * handle)) :
+  NoDup (akeys l) ->
+  (existsb (fun e => h_live (snd e)) l = true <-> exists h x, aget h l = Some x /\ h_live x = true).
+Proof.
+  intros Hnd. rewrite existsb_exists. split.
+  - intros [[h x] [Hi Hl]]. cbn [snd] in Hl. exists h, x. split; [apply In_aget; assumption | exact Hl].
+  - intros [h [x [Hg Hl]]]. exists (h, x). split; [apply aget_In; exact Hg | exact Hl].
+Qed.
+
+(** ** the invariant only depends on the core fields (not on the per-step event log) *)
+Definition core_eq (s s' : st) : Prop :=
+  cap s' = cap s /\ fx s' = fx s /\ q s' = q s /\ sc s' = sc s /\ rc s' = rc s /\ asq s' = asq s /\
+  arq s' = arq s /\ hs s' = hs s /\ fs s' = fs s /\ next s' = next s /\ acc s' = acc s /\
+  recvd s' = recvd s /\ back s' = back s /\ dropped s' = dropped s /\ freed s' = freed s /\ tn s' = tn s.
+
+Lemma InvH_ext hand s s' : core_eq s s' -> InvH hand s -> InvH hand s'.
+Proof.
+  unfold core_eq. destruct s, s'. st_simpl.
+  intros (E1 & E2 & E3 & E4 & E5 & E6 & E7 & E8 & E9 & E10 & E11 & E12 & E13 & E14 & E15 & E16). subst.
+  intros H. inv_frame H.
+Qed.
+
+Ltac core_eq_refl := unfold core_eq; st_simpl; repeat split; reflexivity.
